@@ -280,7 +280,13 @@ impl<'a, D: DependencyProvider> Encoder<'a, D> {
             .or_default()
             .push((requirement, clause_id));
 
-        if conflict {
+        // A clause whose candidates are all assigned false only conflicts with the
+        // current decisions if its parent is installed. If the parent is still
+        // undecided (its clauses are added eagerly because its dependencies are
+        // cheaply available) the clause merely forbids the parent, which is
+        // detected as soon as the parent is assigned.
+        let parent_installed = self.state.decision_tracker.assigned_value(variable) == Some(true);
+        if conflict && parent_installed {
             self.conflicting_clauses.push(clause_id);
         } else if no_candidates {
             // Add assertions for unit clauses (i.e. those with no matching candidates)
@@ -349,8 +355,10 @@ impl<'a, D: DependencyProvider> Encoder<'a, D> {
                 .watches
                 .start_watching(watched_literals, clause_id);
 
-            // Mark conflicting clauses
-            if conflict {
+            // Mark conflicting clauses. If the parent is still undecided (its clauses
+            // are added eagerly) an installed forbidden candidate is not a conflict;
+            // the clause merely forbids the parent.
+            if conflict && self.state.decision_tracker.assigned_value(variable) == Some(true) {
                 self.conflicting_clauses.push(clause_id);
             }
         }
